@@ -14,7 +14,8 @@ RULE = ('sampled (Hypothesis-decoded) trees: conditions = TRUE/FALSE, '
         'unregistered function, a reference to a cell on a cycle); branches '
         'and AND/OR arguments are wrapped in SPY(k, expr), a function '
         "registered only in that evaluator's namespace which logs k; AND/OR "
-        'with 1-8 arguments mixing scalars and ranges of logicals, numbers '
+        'with 1-8 arguments mixing scalars and ranges of logicals, numbers, '
+        'blanks and cells whose value is an error (=1/0, =NA()) '
         'and blanks; IF with 2 and 3 arguments; enumerated: IF x {TRUE, '
         'FALSE, 0, 1, -2, 0.5, blank cell} x each poison in the other '
         'branch, 2- and 3-argument forms.  Oracle: a reference lazy '
@@ -54,7 +55,8 @@ def _cond(d, depth, sp):
     if depth <= 0 or k < 3:
         if d.pick(2):
             return ['c', d.choice(CONDS)]
-        return ['r', d.choice(['A1', 'A2', 'A3', 'A4', 'A5', 'A6', 'E1', 'E3'])]
+        return ['r', d.choice(['A1', 'A2', 'A3', 'A4', 'A5', 'A6', 'E1', 'E3',
+                               'F2', 'G1', 'G3'])]
     if k < 5:
         return ['cmp', d.choice(['<', '>', '=', '<>', '<=', '>=']),
                 ['c', d.int(-3, 3)], ['r', d.choice(['A3', 'A4', 'A5'])]]
@@ -213,6 +215,14 @@ class Err:
         self.code = code
 
 
+# cells whose VALUE is an error (computed by =1/0 and =NA()), inside ranges
+ERRCELLS = {'F1': 1, 'F2': Err('#DIV/0!'), 'F3': 0, 'G1': Err('#N/A'),
+            'G2': 0, 'G3': True}
+ERRFORM = {'#DIV/0!': '=1/0', '#N/A': '=NA()'}
+CELLS.update(ERRCELLS)
+RANGES.extend(['F1:F3', 'F2:F3', 'G1:G2', 'G2:G3', 'F3:G3', 'G1:G3'])
+
+
 class Crash(Exception):
     """Evaluating this legitimately raises (unknown function, cycle)."""
 
@@ -304,6 +314,7 @@ def ref_eval(t, log, must, mustnot):
     if k in ('AND', 'OR'):
         vals = []
         first_err = None
+        lenient = None
         decided = False
         for a in t[1]:
             sid = a[1]
@@ -323,6 +334,19 @@ def ref_eval(t, log, must, mustnot):
                 continue
             items = _items(v)
             for it in items:
+                if isinstance(it, Err):
+                    # an error ELEMENT of a range: it is the result unless
+                    # the elements before it had already decided the result
+                    # (the statement says "among the evaluated arguments";
+                    # Excel returns the error, an element-wise short circuit
+                    # the decided value: both are accepted then)
+                    dec = any(vals) if k == 'OR' else not all(vals)
+                    if first_err is None and lenient is None:
+                        if dec:
+                            lenient = (it, k == 'OR')
+                        else:
+                            first_err = it
+                    continue
                 if it is None:
                     continue
                 tv = truth(it)
@@ -332,6 +356,8 @@ def ref_eval(t, log, must, mustnot):
         n_eval = sum(1 for a in t[1] if a[1] in log)
         if first_err is not None:
             return ('ERR-OR-DECIDED', first_err, k, vals)
+        if lenient is not None:
+            return ('ERR-OR-VALUE', lenient[0], k, lenient[1])
         res = all(vals) if k == 'AND' else any(vals)
         if n_eval < len(t[1]):
             # skipping is only allowed once the result is decided
@@ -385,6 +411,8 @@ def judge(case):
         if isinstance(v, bool):
             cells['Sheet1!' + a] = 0
             presets['Sheet1!' + a] = v
+        elif isinstance(v, Err):
+            cells['Sheet1!' + a] = ERRFORM[v.code]
         else:
             cells['Sheet1!' + a] = v
     cells['Sheet1!Z1'] = '=Z2+1'
@@ -465,6 +493,11 @@ def _assess(case, res, tree, text, obs, log, stage):
         res.fail('skipped-argument-before-decided:%s' % want[1],
                  'all arguments evaluated or result decided', sorted(log),
                  text)
+        return res
+    if isinstance(want, tuple) and want and want[0] == 'ERR-OR-VALUE':
+        if obs[0] != 'E' and obs != ('B', want[3]):
+            res.fail('error-element-after-decision:%s' % want[2],
+                     [ntag(want[1]), ['B', want[3]]], obs, text)
         return res
     if isinstance(want, tuple) and want and want[0] == 'ERR-OR-DECIDED':
         w = ntag(want[1])
